@@ -26,12 +26,29 @@ def family_variants(f):
 def _family_of_pc(pc, variants, who='self.family'):
     """Set of variant names compatible with the switch facts on discr(<who>) in a path condition."""
     allowed = set(variants)
+
+    def is_discr(v):
+        while v[0] == 'app' and v[1].startswith('as:'):
+            v = v[2][0]
+        return v[0] == 'app' and v[1] == 'discr' and v[2][0] == ('sym', who)
     for c in pc:
         if c[0] in ('switch', 'switch-not') and c[1][0] == 'app' and c[1][1] == 'discr' and c[1][2][0] == ('sym', who):
             if c[0] == 'switch':
                 allowed &= {variants[c[2]]} if c[2] < len(variants) else set()
             else:
                 allowed -= {variants[i] for i in c[2] if i < len(variants)}
+        elif c[0] == 'cond' and c[1][0] == 'cmp' and c[1][1] in ('Eq', 'Ne'):
+            # `self.family == CrystalFamily::X` (derived PartialEq compares the discriminants)
+            a, b2 = c[1][2], c[1][3]
+            if is_discr(b2) and a[0] == 'num':
+                a, b2 = b2, a
+            if is_discr(a) and b2[0] == 'num':
+                k = int(b2[1])
+                eq = (c[1][1] == 'Eq') == bool(c[2])
+                if eq:
+                    allowed &= {variants[k]} if k < len(variants) else set()
+                elif k < len(variants):
+                    allowed -= {variants[k]}
     return allowed
 
 
@@ -49,14 +66,18 @@ def dof_table(f):
     for o in outs:
         fams = _family_of_pc(o.pc, variants)
         pushes = []
-        for e in o.effects:
-            if e[0] == ('rec', 'push'):
-                item = e[1][1]
-                if item[0] != 'struct':
-                    return None, 'pushed item is not a StandardBasis literal', b
-                cell = sfield(item, 'value')
-                fld = cell[1][5:] if cell and cell[0] == 'sym' and cell[1].startswith('self.') else None
-                pushes.append((fld, sfield(item, 'min'), sfield(item, 'max')))
+        items = [e[1][1] for e in o.effects if e[0] == ('rec', 'push')]
+        if not items:
+            # built without push (Option/array/iterator chain collected into the Vec): the returned sequence itself
+            r = sx.deep(o.st, o.ret)
+            if isinstance(r, tuple) and r[0] == 'seq':
+                items = [sx.deep(o.st, x) for x in r[1]]
+        for item in items:
+            if item[0] != 'struct':
+                return None, 'pushed item is not a StandardBasis literal', b
+            cell = sfield(item, 'value')
+            fld = cell[1][5:] if cell and cell[0] == 'sym' and cell[1].startswith('self.') else None
+            pushes.append((fld, sfield(item, 'min'), sfield(item, 'max')))
         for v in fams:
             if v in table and table[v] != pushes:
                 return None, 'two paths give different bases for family %s' % v, b
@@ -104,15 +125,18 @@ def site_basis_table(f):
         return None, 'get_basis is not loop-free', b
     seen = {}
     for o in outs:
-        for e in o.effects:
-            if e[0] == ('rec', 'push'):
-                item = e[1][1]
-                if item[0] != 'struct':
-                    return None, 'pushed item is not a StandardBasis literal', b
-                cell = sfield(item, 'value')
-                fld = cell[1][5:] if cell and cell[0] == 'sym' and cell[1].startswith('self.') else None
-                key = (fld, sfield(item, 'min'), sfield(item, 'max'))
-                seen[repr(key)] = key
+        items = [e[1][1] for e in o.effects if e[0] == ('rec', 'push')]
+        if not items:
+            r = sx.deep(o.st, o.ret)
+            if isinstance(r, tuple) and r[0] == 'seq':
+                items = [sx.deep(o.st, x) for x in r[1]]
+        for item in items:
+            if item[0] != 'struct':
+                return None, 'pushed item is not a StandardBasis literal', b
+            cell = sfield(item, 'value')
+            fld = cell[1][5:] if cell and cell[0] == 'sym' and cell[1].startswith('self.') else None
+            key = (fld, sfield(item, 'min'), sfield(item, 'max'))
+            seen[repr(key)] = key
     return list(seen.values()), None, b
 
 
